@@ -10,7 +10,8 @@
          - created node: Insert(new); existing node: Update = delete(old value read from
            the pre-commit snapshot) + insert(new); removed property: delete(old);
          - one entry = B-tree key [index id][ordered value][node id] (payload node id);
-       GraphEngine::create_index: registers an empty tree, no backfill;
+       GraphEngine::create_index (under the write lock): registers the tree and indexes the
+         live nodes whose creation label is the label and that carry the property (backfill);
      nervusdb-storage/src/api.rs      StorageSnapshot::lookup_index: all entries whose key
          starts with [index id][ordered value]; None when the index does not exist OR no
          entry matches;
@@ -18,8 +19,9 @@
          pattern (n:L ...) with equality predicates on n is IndexSeek on the predicate with
          the SMALLEST property name, then Filter(all equality predicates), then
          Filter(n:L), then the WHERE filter;
-     nervusdb-query/src/executor/index_seek_plan.rs execute_index_seek: lookup; None ->
-         the fallback label scan; Some ids -> ids without deleted nodes, sorted.
+     nervusdb-query/src/executor/index_seek_plan.rs execute_index_seek: lookup of the value
+         and, for a number, of the same number in the other numeric type (numeric_twin); nothing
+         found -> the fallback label scan; else ids without deleted nodes, sorted.
    Values are the scalar kinds the index encodes by value (OrderedKey.oval without
    datetime/blob): null, bool, int, float (bit pattern), string (UTF-8 bytes).
    Labels and property names are numbers; the harness names property i "p<i>" so that the
@@ -60,6 +62,32 @@ Definition oeq (a b : oval) : option bool :=
   end.
 Definition oeq_true (a b : oval) : bool :=
   match oeq a b with Some true => true | _ => false end.
+
+(* numeric_twin (index_seek_plan.rs): the same number in the other numeric type, when it exists
+   exactly.  Int(i) -> Float(i as f64) if that double is i; Float(f) -> Int(f as i64) if f is
+   integral and inside the i64 range. *)
+Definition float_bits_of_int (z : Z) : option N :=
+  if (z =? 0)%Z then Some 0 else
+  let a := Z.to_N (Z.abs z) in
+  let e := N.log2 a in
+  let sign := if (z <? 0)%Z then two63 else 0 in
+  if e <=? 52 then Some (sign + (e + 1023) * 4503599627370496 + (N.shiftl a (52 - e) - 4503599627370496))
+  else if a mod (2 ^ (e - 52)) =? 0
+       then Some (sign + (e + 1023) * 4503599627370496 + (N.shiftr a (e - 52) - 4503599627370496))
+       else None.
+Definition int_of_float_bits (b : N) : option Z :=
+  match f_exact b with
+  | Some q =>
+      let z := (q / Z.pow 2 1074)%Z in
+      if (q mod Z.pow 2 1074 =? 0)%Z && in_i64 z then Some z else None
+  | None => None
+  end.
+Definition twin (v : oval) : option oval :=
+  match v with
+  | OInt z => option_map OFloat (float_bits_of_int z)
+  | OFloat b => option_map OInt (int_of_float_bits b)
+  | _ => None
+  end.
 
 (* kinds handled (no datetime/blob) and basic typing of the payloads *)
 Definition typed (v : oval) : bool :=
@@ -155,6 +183,22 @@ Definition index_on_props (id : N) (first : option N) (old : option oval) (final
     end
   else ix.
 
+Fixpoint ids_from (i : N) (ns : list node) (p : node -> bool) : list N :=
+  match ns with
+  | [] => []
+  | n :: t => if p n then i :: ids_from (N.succ i) t p else ids_from (N.succ i) t p
+  end.
+
+(* create_index: entries of the live nodes created with the indexed label that carry the property *)
+Definition backfill_one (s : state) (id : N) : list entry :=
+  match get_node s id with
+  | Some n => match pget ikey (n_props n) with Some w => [(enc w, id)] | None => [] end
+  | None => []
+  end.
+Definition backfill (s : state) : list entry :=
+  flat_map (backfill_one s)
+           (ids_from 0 (nodes s) (fun n => negb (n_deleted n) && label_eqb (n_first n) ilabel)).
+
 Definition step (s : state) (o : op) : state :=
   match o with
   | OCreate labels ps =>
@@ -187,7 +231,7 @@ Definition step (s : state) (o : op) : state :=
       upd_node s id (fun n => mkNode (n_first n) (filter (fun x => negb (x =? l)) (n_labels n))
                                      (n_props n) (n_deleted n))
   | ODelete id => upd_node s id (fun n => mkNode (n_first n) (n_labels n) (n_props n) true)
-  | OCreateIndex => mkState (nodes s) (match index s with None => Some [] | i => i end)
+  | OCreateIndex => mkState (nodes s) (match index s with None => Some (backfill s) | i => i end)
   | OCompact | OReopen => s
   | OResync obs =>
       mkState (map (fun no => let '(n, (ls, ps, d)) := no in mkNode (n_first n) ls ps d)
@@ -208,11 +252,6 @@ Definition sat (n : node) (l : N) (preds : list (N * oval)) : bool :=
                      | None => false            (* missing property reads null *)
                      end) preds.
 
-Fixpoint ids_from (i : N) (ns : list node) (p : node -> bool) : list N :=
-  match ns with
-  | [] => []
-  | n :: t => if p n then i :: ids_from (N.succ i) t p else ids_from (N.succ i) t p
-  end.
 
 (* label scan + filters *)
 Definition scan_eval (s : state) (l : N) (preds : list (N * oval)) : list N :=
@@ -222,12 +261,27 @@ Fixpoint ins_sorted (x : N) (l : list N) : list N :=
   match l with [] => [x] | y :: t => if x <=? y then x :: l else y :: ins_sorted x t end.
 Definition sort_ids (l : list N) : list N := fold_right ins_sorted [] l.
 
-Definition lookup (s : state) (l k : N) (v : oval) : option (list N) :=
+(* StorageSnapshot::lookup_index: one encoded value *)
+Definition lookup1 (s : state) (l k : N) (v : oval) : option (list N) :=
   if (l =? ilabel) && (k =? ikey) then
     match index s with
     | None => None
     | Some ix =>
         match map snd (filter (fun e => bytes_eqb (fst e) (enc v)) ix) with
+        | [] => None
+        | ids => Some ids
+        end
+    end
+  else None.
+(* what execute_index_seek collects: the value's entries and its numeric twin's *)
+Definition seek_keys (v : oval) : list bytes :=
+  enc v :: match twin v with Some t => [enc t] | None => [] end.
+Definition lookup (s : state) (l k : N) (v : oval) : option (list N) :=
+  if (l =? ilabel) && (k =? ikey) then
+    match index s with
+    | None => None
+    | Some ix =>
+        match map snd (filter (fun e => existsb (bytes_eqb (fst e)) (seek_keys v)) ix) with
         | [] => None
         | ids => Some ids
         end
@@ -260,15 +314,20 @@ Definition missing (s : state) (id : N) (n : node) : bool :=
 Definition k_label (s : state) : bool :=
   existsb (fun p => missing s (fst p) (snd p) && negb (label_eqb (n_first (snd p)) ilabel))
           (combine (map N.of_nat (seq 0 (length (nodes s)))) (nodes s)).
-(* K-C15-backfill: entry missing although the node was created with the indexed label *)
+(* entry missing although the node was created with the indexed label: only after a
+   resynchronisation (K-C15-foreign) since create_index backfills *)
 Definition k_backfill (s : state) : bool :=
   existsb (fun p => missing s (fst p) (snd p) && label_eqb (n_first (snd p)) ilabel)
           (combine (map N.of_nat (seq 0 (length (nodes s)))) (nodes s)).
-(* K-C15-numeric: a live labelled node stores a number equal to v but of the other numeric kind *)
+(* (former K-C15-numeric, repaired) a live labelled node stores a number equal to v in the
+   other numeric type whose entry the twin lookup does not reach.  Expected never to hold: it is
+   the arithmetic fact "numeric_twin is complete", checked on every generated query. *)
+Definition twin_hit (w v : oval) : bool :=
+  match twin v with Some t => bytes_eqb (enc w) (enc t) | None => false end.
 Definition k_numeric (s : state) (v : oval) : bool :=
   existsb (fun n => negb (n_deleted n) && has_label n ilabel &&
                     match pget ikey (n_props n) with
-                    | Some w => oeq_true w v && negb (kind w =? kind v)
+                    | Some w => oeq_true w v && negb (kind w =? kind v) && negb (twin_hit w v)
                     | None => false
                     end) (nodes s).
 
@@ -286,13 +345,7 @@ Definition bad_step (s : state) (o : op) : bool :=
       (* indexed label added later: K-C15-label *)
       (l =? ilabel) && match get_node s id with Some n => negb (label_eqb (n_first n) ilabel) | None => false end
   | ORemoveLabel _ _ | ODelete _ | OCompact | OReopen => false
-  | OCreateIndex =>
-      (* index created over existing data: K-C15-backfill *)
-      match index s with
-      | Some _ => false
-      | None => existsb (fun n => (has_label n ilabel || label_eqb (n_first n) ilabel) &&
-                                  match pget ikey (n_props n) with Some _ => true | None => false end) (nodes s)
-      end
+  | OCreateIndex => false                       (* create_index backfills (K-C15-backfill repaired) *)
   | OResync _ => true
   end.
 Fixpoint good_from (s : state) (h : list op) : bool :=
